@@ -341,7 +341,7 @@ def evalBlock (b : Block) (prev : Array (String × Float)) : Array String × Arr
             let tot := q + qdl
             let ok := !(Row.dl c.grams tot).fails { env with tol := Surface.maxv b.tol (relTol * q.abs) }
             out := out.push (vline b "V" "dl-neutral" c.name ok qdl (-q))
-            out := out.push (vline b "T" "cb-f" c.name (close 1e-9 (1e-11 * (q.abs + qdlAbs) + 1e-22) cb.f tot) cb.f tot)
+            out := out.push (vline b "T" "cb-f" c.name (close 1e-9 (1e-9 * (q.abs + qdlAbs) + 1e-22) cb.f tot) cb.f tot)
             match pubSig with
             | some ps => out := out.push (vline b "T" "pub-sigma" c.name (close 1e-10 1e-22 ps sigSp) ps sigSp)
             | none => pure ()
@@ -375,7 +375,7 @@ def evalBlock (b : Block) (prev : Array (String × Float)) : Array String × Arr
             let r2 := residCD2DL (f2 + qdl) st.sigma0 st.sigma1 c.area c.grams
             let ok := !(Row.cb c.grams r2).fails { env with tol := Surface.maxv b.tol (relTol * (f2 + (st.sigma0 + st.sigma1) * (c.area * c.grams) / F_C_MOL).abs) }
             out := out.push (vline b "V" "dl-neutral" c.name ok qdl (-(f2 + (st.sigma0 + st.sigma1) * (c.area * c.grams) / F_C_MOL)))
-            out := out.push (vline b "T" "cd-f2" c.name (close 1e-9 (1e-11 * (f2.abs + qdlAbs) + 1e-22) u2.f (f2 + qdl)) u2.f (f2 + qdl))
+            out := out.push (vline b "T" "cd-f2" c.name (close 1e-9 (1e-9 * (f2.abs + qdlAbs) + 1e-22) u2.f (f2 + qdl)) u2.f (f2 + qdl))
           match pubPsi with
           | some v => out := out.push (vline b "T" "pub-psi" c.name (close 1e-13 1e-18 v psi0) v psi0)
           | none => pure ()
